@@ -106,8 +106,8 @@ def parseDumpRec (t : Table) (toks : List String) : Option Table :=
     let ds ← parseWide ds
     let af ← hexN? af
     let be ← hexN? be
-    pure { t with rules := t.rules ++ [{ idx := i, opcode := op, chars := ch, dots := ds, after := af, before := be,
-                                          nocross := nc != "0", hasPatterns := hp != "0" }] }
+    pure { t with rules := { idx := i, opcode := op, chars := ch, dots := ds, after := af, before := be,
+                                          nocross := nc != "0", hasPatterns := hp != "0" } :: t.rules }
   | ["E", _, _, v] =>
     if v.startsWith "n" then some t else none
   | ["C", v, att, md, df, cp, bs, chn] => do
@@ -118,13 +118,13 @@ def parseDumpRec (t : Table) (toks : List String) : Option Table :=
     let cp ← optIdx cp
     let bs ← if bs == "-" then some none else (hexN? bs).map some
     let chn ← parseChain chn
-    pure { t with chars := t.chars ++ [{ value := v, attrs := att, mode := md, defRule := df, compRule := cp, base := bs, chain := chn }] }
+    pure { t with chars := { value := v, attrs := att, mode := md, defRule := df, compRule := cp, base := bs, chain := chn } :: t.chars }
   | ["D", v, att, df, chn] => do
     let v ← hexN? v
     let att ← hexN? att
     let df ← optIdx df
     let chn ← parseChain chn
-    pure { t with dots := t.dots ++ [{ value := v, attrs := att, defRule := df, chain := chn }] }
+    pure { t with dots := { value := v, attrs := att, defRule := df, chain := chn } :: t.dots }
   | ["F", h, chn] => do pure { t with forB := t.forB ++ [(← h.toNat?, ← parseChain chn)] }
   | ["B", h, chn] => do pure { t with backB := t.backB ++ [(← h.toNat?, ← parseChain chn)] }
   | ["FP", h, chn] => do pure { t with forPass := t.forPass ++ [(← h.toNat?, ← parseChain chn)] }
@@ -154,11 +154,13 @@ def parseDump (line : String) : Option Table :=
         undefined := ← optIdx ud, letterSign := ← optIdx ls, numberSign := ← optIdx ns, noContractSign := ← optIdx nc,
         noNumberSign := ← optIdx nn, begComp := ← optIdx bc, endComp := ← optIdx ec, hyph := hy != "0",
         ruleCounter := ← rc.toNat? }
-      recs.foldlM (fun t r =>
+      let t ← recs.foldlM (fun t r =>
         let toks := (r.splitOn " ").filter (· != "")
         match toks with
         | "E" :: _ => parseEmph t toks
         | _ => parseDumpRec t toks) t0
+      -- the record lists were built by consing: restore the order of the dump
+      pure { t with rules := t.rules.reverse, chars := t.chars.reverse, dots := t.dots.reverse }
     | _ => none
 
 end Lou
